@@ -83,6 +83,23 @@ func fileName(MID string) (string, error) {
 	return MID + Ext, nil
 }
 
+// writeFile writes data to the named file such that a crash never leaves a truncated
+// message behind: the data is written to a temporary (dot-prefixed, ignored when
+// loading a message directory) file in the same directory, which is then renamed.
+func writeFile(filename string, data []byte, perm os.FileMode) error {
+	dir, name := path.Split(filename)
+	tmp := path.Join(dir, "."+name+".tmp")
+	if err := ioutil.WriteFile(tmp, data, perm); err != nil {
+		os.Remove(tmp)
+		return err
+	}
+	if err := os.Rename(tmp, filename); err != nil {
+		os.Remove(tmp)
+		return err
+	}
+	return nil
+}
+
 func (h *DirHandler) AddOut(msg *fbb.Message) error {
 	data, err := msg.Bytes()
 	if err != nil {
@@ -94,7 +111,7 @@ func (h *DirHandler) AddOut(msg *fbb.Message) error {
 		return err
 	}
 
-	return ioutil.WriteFile(path.Join(h.MBoxPath, DIR_OUTBOX, name), data, 0644)
+	return writeFile(path.Join(h.MBoxPath, DIR_OUTBOX, name), data, 0644)
 }
 
 func (h *DirHandler) ProcessInbound(msgs ...*fbb.Message) (err error) {
@@ -113,7 +130,7 @@ func (h *DirHandler) ProcessInbound(msgs ...*fbb.Message) (err error) {
 			return err
 		}
 
-		if err = ioutil.WriteFile(filename, data, 0664); err != nil {
+		if err = writeFile(filename, data, 0664); err != nil {
 			return fmt.Errorf("Unable to write received message (%s): %s", filename, err)
 		}
 	}
@@ -315,5 +332,5 @@ func SetUnread(msg *fbb.Message, unread bool) error {
 	if filePath == "" {
 		return fmt.Errorf("Missing X-FilePath header")
 	}
-	return ioutil.WriteFile(filePath, data, 0644)
+	return writeFile(filePath, data, 0644)
 }
